@@ -8,6 +8,7 @@ STUB_CLIENT = ["net.Conn / serial port (scripted simulated transport)", "clock a
 
 META = {
     "C07": {
+        "sweep": ('enumerated completely at the start of every run of the check (besides the random search): for every client kind x function x {normal, exception} reply to a small request, every single cut position 1..14 (wrapping at the reply length) x three delay classes before the second chunk, plus one-byte-per-read with and without short gaps; complete over single cuts for replies of up to 15 bytes'),
         "level": "exploration",
         "budget": {"quick": 35, "thorough": 600},
         "rule": ("each run = one real client (tcp / rtu-over-network / serial, stratified) x one request of one of the 10 functions "
@@ -16,7 +17,8 @@ META = {
                  "one byte per read, random multi-cut) x per-chunk gaps (0, shorter than a per-read deadline, several deadlines => "
                  "empty timed-out reads) x knobs (read timeout, serial port timeout and timeout style, (n>0,EOF) on the last chunk). "
                  "non-trivial = the reply was delivered in >= 2 reads; distinct = distinct schedule fingerprint (sequence of "
-                 "transport outcomes with sizes bucketed) among the non-trivial runs."),
+                 "transport outcomes with sizes bucketed) among the non-trivial runs."
+                 ' Additions: a quarter of the random runs use small requests; data delivered together with a tolerated error (io.EOF / deadline exceeded) on serial ports; one long silence of 50-93 % of the read timeout; in a fifth of the runs a second call follows on the same client and the first response is re-examined afterwards.'),
         "assumptions": [
             "the serial port honours a finite read timeout (1-100 ms simulated); the library documents it cannot bound a blocking port",
             "FC17 replies use the layout the library documents (byte count of the server id, id, run status, optional extra data)",
@@ -26,6 +28,7 @@ META = {
         "components": {"real": REAL_CLIENT, "stub": STUB_CLIENT},
     },
     "C08": {
+        "sweep": ('enumerated completely: {stall, EOF, I/O error} x client kind x function x {normal, exception} x every prefix length 0..13 of the reply to a small request, the prefix delivered in one read; complete over prefix lengths for replies of up to 14 bytes'),
         "level": "fault_enumeration",
         "budget": {"quick": 35, "thorough": 600},
         "rule": ("each run = one real client (tcp / rtu-over-network / serial) x one request (10 functions) x one fault kind from "
@@ -35,7 +38,8 @@ META = {
                  "(fault kind x client kind x function) is stratified so every combination is run; read timeout 5 ms-2 s. "
                  "A fault counts as fired only when the transport actually returned it to the client (or, for cancellation, the call "
                  "outlived it by more than one blocking-read period). distinct = distinct fingerprint of the transport-call outcome sequence; "
-                 "every run is non-trivial (it contains a fault)."),
+                 "every run is non-trivial (it contains a fault)."
+                 ' Additions: dial failures (nil and typed-nil connection returned with the error) followed by Do; slow-drip prefixes (gaps of 40 % of the read timeout each, total beyond it); in a third of the stall runs another call (stalled again or healthy) follows on the same client. The time bound is the documented one: read timeout + one blocking read (+30 ms for the serial client) + 1 ms.'),
         "assumptions": [
             "the serial port honours a finite read timeout (<= 100 ms simulated)",
             "bounded time is checked as writeTimeout + readTimeout + 1 s (+30 ms settle sleep + one port timeout for the serial client) of simulated time",
@@ -46,6 +50,7 @@ META = {
         "components": {"real": REAL_CLIENT, "stub": STUB_CLIENT},
     },
     "C12": {
+        "sweep": ('enumerated completely: {RTU network client, serial client} x function x {normal, exception} reply to a small request x every single-bit flip in the first 13 bytes x {whole, cut after byte 5, one byte per read}'),
         "level": "fault_enumeration",
         "budget": {"quick": 30, "thorough": 600},
         "rule": ("each run = RTU network client or serial client x one request (10 functions, small replies over-weighted) x a valid RTU reply "
@@ -54,7 +59,8 @@ META = {
                  "(a cut after byte 5 over-weighted: that is where the early exception shortcut looks); (client x function x corruption kind) stratified. "
                  "Corruptions that leave the frame CRC-consistent are skipped (outside the premise). The oracle is stated on what the client consumed: "
                  "if Do returned a response or an error that unwraps to *packet.ErrorResponseRTU, the consumed bytes must be CRC-consistent per the reference CRC. "
-                 "distinct = distinct transport-outcome fingerprint; every executed run is non-trivial (it contains a corruption)."),
+                 "distinct = distinct transport-outcome fingerprint; every executed run is non-trivial (it contains a corruption)."
+                 ' Additions: sequences on one client (the same corrupted reply two or three times; a valid exchange followed by the corrupted reply, with the first response re-examined afterwards); read-server-id replies that reach the 256-byte maximum.'),
         "assumptions": ["reference CRC-16 is the bitwise definition (poly 0xA001, init 0xFFFF), independent of packet.CRC16",
                         "the serial port honours a finite read timeout", "sampling, not proof"],
         "components": {"real": REAL_CLIENT, "stub": STUB_CLIENT},
@@ -67,12 +73,14 @@ META = {
                  "parser invocations are observed; the serial client is built with NewSerialClient/WithSerialHooks. Checked: BeforeWrite argument == encoded "
                  "request == bytes the transport received; AfterEachRead calls == the transport's own record of every Read, element for element (window length, "
                  "bytes, n, error identity); BeforeParse exactly once, last, with the concatenation, iff the parser ran; result, transport call sequence and "
-                 "elapsed simulated time identical with and without hooks. non-trivial = at least 2 transport reads; distinct = distinct fingerprint."),
+                 "elapsed simulated time identical with and without hooks. non-trivial = at least 2 transport reads; distinct = distinct fingerprint."
+                 ' Additions: stall / cancel scenarios whose remaining reply bytes arrive after the call has given up, followed by another call on the same client that finds them (hooks and transport record compared per call); data delivered together with a tolerated error.'),
         "assumptions": ["parser invocations of the serial client cannot be observed (no seam): there only 'success implies BeforeParse ran once' is checked",
                         "later reuse of a window already handed to a hook is not checked (the statement does not require it)", "sampling, not proof"],
         "components": {"real": REAL_CLIENT, "stub": STUB_CLIENT},
     },
     "C15": {
+        "sweep": ('enumerated completely (client write boundaries = server read boundaries, no pauses): all 2^(n-1) cut sets of one 12-byte request for each of FC1-FC6 and of the 8-byte FC17 request; every single cut and every pair of cuts of one small FC15/FC16/FC23 request (15/17/19 bytes) and of two 12-byte requests sent back to back (24 bytes, pipelined)'),
         "level": "exploration",
         "budget": {"quick": 40, "thorough": 600},
         "rule": ("each run = the real server.Server.Serve + ModbusTCPAssembler on a simulated listener, handler = reference device, 1-3 raw client tasks "
@@ -81,7 +89,8 @@ META = {
                  "deadlines, link latency, and the server's Reads themselves cut by the tape; plus a twin run of the same request lists arriving whole and lock-step. "
                  "Checked: exactly one reply per request, in order, echoing the transaction id (both runs); reply stream byte-identical to the whole-arrival run; "
                  "normal replies equal the reference device's; at every server write, bytes written <= replies due for the requests completely read so far. "
-                 "non-trivial = some cut other than frame boundaries, server-side cuts, or more than one connection; distinct = distinct schedule fingerprint."),
+                 "non-trivial = some cut other than frame boundaries, server-side cuts, or more than one connection; distinct = distinct schedule fingerprint."
+                 ' Additions: unsupported-function frames inside the streams; handlers with simulated work of up to 90 ms; server reads that return data together with the deadline error; write deadlines honoured by the simulated connection.'),
         "assumptions": ["requests the library's own request parsers refuse (e.g. 126-2000 coils) are answered with an exception consistently and are not charged to C15",
                         "quiescence = 1 simulated second without the expected reply, then 200 ms of silence to catch extra replies", "sampling, not proof"],
         "components": {"real": ["server.Server.Serve accept loop and connection loop (server/server.go)", "server.ModbusTCPAssembler (server/modbus.go)",
@@ -98,7 +107,8 @@ META = {
                  "panic, slow}; (class x handler x function) stratified. Three executions per run: all connections; without the subject connection (bystanders must receive "
                  "the same bytes); one subject frame alone on a fresh connection (same reply as inside the sequence; the device is stateless here so replies are a pure function "
                  "of the request). Checked per reply: one well-formed ADU, tid and unit echo, function or function|0x80 with 9 bytes, code 01 for unsupported function, 03 for "
-                 "out-of-range when the library or the device (not a failing handler) produced it. distinct = distinct fingerprint; every run is non-trivial."),
+                 "out-of-range when the library or the device (not a failing handler) produced it. distinct = distinct fingerprint; every run is non-trivial."
+                 ' Additions: frames of the subject connection arrive in two pieces (cut in the header or in the body) in a third of the cases; typed handler errors may be one shared sentinel value; MBAP length fields far beyond what is sent (0xFFFA-0xFFFF, 0x8000, 254-300); a subject connection that dies in the middle of a frame while the other connections connect only afterwards. A run that spins without reaching a scheduling point is reported as busy_hang after being reproduced in isolation.'),
         "assumptions": ["which requests deserve a normal response is not C16's business: a legal request refused with a well-formed exception passes",
                         "a panicking handler is expected to cost its own connection (closed, no reply); only the process and the other connections must be unaffected",
                         "process crashes are detected by the driver (worker exit) and confirmed by re-running the run in isolation", "sampling, not proof"],
@@ -118,7 +128,8 @@ META = {
                  "(tracked - closed) and (tracked - untracked) + 1; rejected connections closed; OnCloseConnFunc exactly once per accepted connection by the end of the drained run; "
                  "after Shutdown returned nil: Serve returned ErrServerClosed without further events, a new dial is refused, every accepted connection is closed by the server, every "
                  "request whose handler had started has its complete reply written; after cancel: Serve returns within 1 simulated second. non-trivial = at least one client; "
-                 "distinct = distinct schedule fingerprint."),
+                 "distinct = distinct schedule fingerprint."
+                 ' Additions: in two thirds of the runs the controller is aimed at an event (n-th handler start, handler end, accept, server write begin) instead of a time, so that windows of zero simulated duration are hit; server-side writes may take simulated time; write deadlines are honoured; a second lifecycle call (another Shutdown, or cancel) by another goroutine, concurrently or a little later.'),
         "assumptions": ["a connection that comes out of Accept only after cancellation / after Shutdown began may be turned away (closed, no callbacks)",
                         "Shutdown returning the context's error (tight context) asserts nothing", "process crashes are detected by the driver and confirmed in isolation",
                         "data races are looked for in race mode only (free-running goroutines under -race; observation, not replayable byte-exactly)", "sampling, not proof"],
@@ -135,7 +146,8 @@ META = {
                  "(client kind x caller count x close/connect) stratified. Checked: no request is written while another caller's exchange is in progress; every byte sequence written is "
                  "one caller's request; each successful caller got the reply to its own request (tid/unit, echo); the history stamped with scheduler step numbers is linearizable w.r.t. "
                  "a register file (porcupine, failed writes may or may not have happened, failed reads dropped, Unknown never reported). Race mode: the same scenarios with free-running "
-                 "goroutines under -race (counted separately). Every run is non-trivial (>= 2 callers); distinct = distinct schedule fingerprint."),
+                 "goroutines under -race (counted separately). Every run is non-trivial (>= 2 callers); distinct = distinct schedule fingerprint."
+                 ' Additions: a quarter of the runs give some calls short context deadlines (attribution oracles off for those runs; transport monitors - no read outside a call, no two concurrent readers - stay on); responses are kept by the callers and re-examined after later calls on the shared client; in a third of the runs SetReadDeadline is a scheduling point too.'),
         "assumptions": ["replies are delivered unfragmented (fragmentation is C07's quantifier and its known findings would blur the verdict)",
                         "calls overlapping Close/Connect may fail; they must not succeed with someone else's reply",
                         "race mode is observation of executions whose interleaving the simulator does not decide; its reports are not replayable byte-exactly", "sampling, not proof"],
@@ -150,7 +162,8 @@ META = {
                  "each request is sent by a real client through DialContextFunc to the device its ServerAddress names; with probability 1/4 per run devices answer reads with only the first "
                  "r < quantity registers and close. Checked: every request seen by a device carries that device's unit and the request's window; every requested field reported exactly "
                  "once on its own definition with the value the reference typed decode gives for that device's memory (exact Go type, floats bitwise); short answers: strict fails as a whole, "
-                 "lenient marks exactly the unreachable fields. non-trivial = at least 2 distinct register fields; distinct = distinct schedule fingerprint."),
+                 "lenient marks exactly the unreachable fields. non-trivial = at least 2 distinct register fields; distinct = distinct schedule fingerprint."
+                 ' Additions: server names and unit ids include pairs that collide under careless concatenation (plc1/11 vs plc11/1); the builder is asked for other kinds of requests, or twice, before the requests that are used; one client per server address is kept for the whole poll cycle and all fields are extracted only after the last response has arrived.'),
         "assumptions": ["32/64-bit and string semantics are the ones the library documents (LowWordFirst reverses the register order of the value, LittleEndian reads the resulting bytes little-endian, "
                         "BigEndian strings swap the bytes of each register, NUL-terminated, one rune per byte)", "byte-order flags on 8/16-bit fields are documented as irrelevant and are not generated",
                         "valid field = its registers lie inside the 16-bit address space", "replies are delivered unfragmented", "sampling, not proof"],
@@ -165,7 +178,8 @@ META = {
                  "specification layout, then a read of an overlapping window of 1-2000 coils (FC1) or discrete inputs (FC2), TCP or RTU, either direct (IsCoilSet/IsInputSet asked for every "
                  "address in the payload window, and 5 addresses before and 5 beyond) or through builder coil fields + ExtractFields; (framing x function x size class x via-builder) stratified. "
                  "Checked: lookup == the device's coil (padding bits zero), error exactly outside [start, start+8*len(payload)). The observed mapping is classified by formula so that a known "
-                 "defect is matched by what it does, not by where it is. non-trivial = payload longer than one byte; distinct = distinct fingerprint."),
+                 "defect is matched by what it does, not by where it is. non-trivial = payload longer than one byte; distinct = distinct fingerprint."
+                 ' Additions: one client for the whole session with another exchange between obtaining a response and querying it; builder coil fields in two clusters more than 2000 addresses apart (several requests); the same payload assembled in code (with and without the byte-count field) must answer every lookup like the parsed response.'),
         "assumptions": ["the device model is the specification (coil start+i is bit i mod 8 of payload byte i div 8)", "sampling, not proof"],
         "components": {"real": ["packet.NewWriteMultipleCoilsRequest*, CoilsToBytes", "ReadCoilsResponse.IsCoilSet, ReadDiscreteInputsResponse.IsInputSet/IsCoilSet, isBitSet", "builder coil batching and extractCoilFields", "modbus.Client"],
                        "stub": ["device", "network", "clock", "goroutine choice"]},
@@ -180,7 +194,8 @@ META = {
                  "response; the scheduler interleaves readers at call granularity; (framing x function x first operation) stratified. Checked after every call: the response re-encodes to the "
                  "bytes it had on arrival; the call's result equals the result of the same call on a fresh private copy of the arrival snapshot (so results are independent of order and history); "
                  "the same call repeated returns the same result. Race mode: the same readers as free goroutines under -race. Every run is non-trivial; distinct = distinct fingerprint "
-                 "(which includes the operation kinds)."),
+                 "(which includes the operation kinds)."
+                 " Additions: for ExtractFields the expected result is every field extracted alone, each from its own private copy (so a field's value may not depend on which other fields are extracted with it, nor on their order)."),
         "assumptions": ["what the right value is belongs to C04/C05; C13 only compares against the same code on a private copy", "FC23 responses cannot be obtained through the clients on this tree (known finding of C07) and are not used",
                         "race mode is observation, not replayable byte-exactly", "sampling, not proof"],
         "components": {"real": ["packet.Registers accessors", "BuilderRequest.ExtractFields / Field.ExtractFrom", "response parsers and AsRegisters", "modbus.Client"],
